@@ -94,7 +94,14 @@ CHECKS['C13'] = dict(text='STRUCTURAL PART ONLY. The C14 harness with the SQLite
                   'lengths / precisions the rendered type name is fed to the documented five-rule affinity algorithm and must give the intended affinity; AUTOINCREMENT requires the name INTEGER. Execution on a real SQLite engine and catalogue introspection are outside the technique and not claimed.',
              note=TRUST_M + 'Trusted: my reading of the SQLite DDL diagrams and of "Datatypes in SQLite" 3.1 in props/ddlskel.py; the intended-affinity table. Known finding: inline plain index.',
              technique='symbolic execution of rustc MIR with a reference DDL recogniser and the SQLite affinity algorithm deciding each path', ref='6/C13', engine=ENGINE_M)
-NA = {}
+CHECKS['C19'] = dict(text='(1) Bounded symbolic execution of sea_query_derive::must_be_valid_iden (the per-type predicate that selects the generated quoting fast path; interpreted from the derive crate MIR) over every name of up to L Unicode scalar values (L=4 quick, 6 thorough): '
+                  'z3 proves that an accepted name holds no identifier quote of any backend, and symbolic execution of Iden::prepare (sea-query MIR) proves that the general quoting of a name without the quote character is left + name + right, i.e. what the fast path writes. '
+                  '(2) Programs cannot be made symbolic (macro expansion runs inside rustc): a generated fixture family of derive inputs (PascalCase, acronym, digit, underscore names; #[iden = ..], rename, method, flatten; unit structs; enum_def prefix / suffix / table_name) is compiled against the current /repo, '
+                  'its MIR is interpreted for unquoted / prepare of every variant and compared with an independent snake_case reference and with the general quoting for both quote characters.',
+             note=TRUST_M + 'Part (2) is an enumeration of a fixed family of programs decided by interpreting the generated code, not a solver verdict over all programs; stated as such. enum_def: a field variant spells the field name (fixture fields are their own snake_case).',
+             technique='symbolic execution of rustc MIR (derive crate predicate + generated impls of a compiled fixture crate) with z3 deciding the per-path assertions of the predicate', ref='6/C19', engine=ENGINE_M)
+NA = {'C20': 'Send + Sync of the statement / value types is a type-level fact decided by the Rust trait solver at compile time (auto traits over the field types under thread-safe); there is no input, schedule or state to make symbolic and no assertion a SAT/SMT solver could decide. '
+             'A compile-time assertion (fn assert_send_sync<T: Send + Sync>()) would settle it, but that is type checking, not solver-based checking of the code, so by the rules of this task it is declined rather than claimed with another technique.'}
 def load_props():
     return [json.loads(l) for l in open(os.path.join(V, 'properties.jsonl'))]
 def main():
